@@ -551,3 +551,97 @@ M('C16-twin-demorgan', 'C16', CONN,
   "        if self.networking_thread is not None and \\\n           not self.networking_thread.interrupt or \\\n           self.new_networking_thread is not None:\n            raise InvalidState('There is an existing connection.')",
   "        if not ((self.networking_thread is None or\n                 self.networking_thread.interrupt) and\n                self.new_networking_thread is None):\n            raise InvalidState('There is an existing connection.')",
   expect='silent')
+
+# ---------------------------------------------------------------- C13
+M('C13-react-before-early', 'C13', CONN,
+  "            for listener in self.early_packet_listeners:\n                listener.call_packet(packet)\n            self.reactor.react(packet)",
+  "            self.reactor.react(packet)\n            for listener in self.early_packet_listeners:\n                listener.call_packet(packet)",
+  rule='R13.2')
+M('C13-ignore-around-early-only', 'C13', CONN,
+  "        try:\n            for listener in self.early_packet_listeners:\n                listener.call_packet(packet)\n            self.reactor.react(packet)\n            for listener in self.packet_listeners:\n                listener.call_packet(packet)\n        except IgnorePacket:\n            pass",
+  "        try:\n            for listener in self.early_packet_listeners:\n                listener.call_packet(packet)\n        except IgnorePacket:\n            pass\n        self.reactor.react(packet)\n        for listener in self.packet_listeners:\n            listener.call_packet(packet)",
+  rule='R13.2')
+M('C13-register-insert-front', 'C13', CONN,
+  "        target.append(packets.PacketListener(method, *packet_types, **kwds))",
+  "        target.insert(0, packets.PacketListener(method, *packet_types, **kwds))", rule='R13.1')
+M('C13-selection-crossed', 'C13', CONN,
+  "            else self.early_packet_listeners if early and not outgoing \\\n            else self.outgoing_packet_listeners if not early \\",
+  "            else self.outgoing_packet_listeners if early and not outgoing \\\n            else self.early_packet_listeners if not early \\",
+  rule='R13.1')
+M('C13-call-packet-no-return', 'C13', LISTENER,
+  "                self.callback(packet)\n                return True\n        return False",
+  "                self.callback(packet)\n        return False", rule='R13.4')
+M('C13-filter-exact-type', 'C13', LISTENER, "            if isinstance(packet, packet_type):",
+  "            if type(packet) is packet_type:", rule='R13.4')
+M('C13-outgoing-after-before-write', 'C13', CONN,
+  "            for listener in self.outgoing_packet_listeners:\n                listener.call_packet(packet)\n        except IgnorePacket:",
+  "        except IgnorePacket:", rule='R13.3',
+  edits=[dict(file=CONN, find="            for listener in self.early_outgoing_packet_listeners:\n                listener.call_packet(packet)\n",
+              repl="            for listener in self.early_outgoing_packet_listeners:\n                listener.call_packet(packet)\n            for listener in self.outgoing_packet_listeners:\n                listener.call_packet(packet)\n"),
+         dict(file=CONN, find="            for listener in self.outgoing_packet_listeners:\n                listener.call_packet(packet)\n        except IgnorePacket:",
+              repl="        except IgnorePacket:")])
+M('C13-reversed-iteration', 'C13', CONN, "            for listener in self.packet_listeners:\n",
+  "            for listener in reversed(self.packet_listeners):\n", rule='R13.2')
+M('C13-broad-except', 'C13', CONN,
+  "            for listener in self.packet_listeners:\n                listener.call_packet(packet)\n        except IgnorePacket:\n            pass",
+  "            for listener in self.packet_listeners:\n                listener.call_packet(packet)\n        except Exception:\n            pass",
+  rule='R13.2')
+M('C13-twin-rename-lists', 'C13', CONN, "early_outgoing_packet_listeners", "pre_send_listeners", count=3, expect='silent')
+M('C13-twin-if-chain', 'C13', CONN,
+  "        target = self.packet_listeners if not early and not outgoing \\\n            else self.early_packet_listeners if early and not outgoing \\\n            else self.outgoing_packet_listeners if not early \\\n            else self.early_outgoing_packet_listeners\n",
+  "        if outgoing:\n            target = self.early_outgoing_packet_listeners if early \\\n                else self.outgoing_packet_listeners\n        elif early:\n            target = self.early_packet_listeners\n        else:\n            target = self.packet_listeners\n",
+  expect='silent')
+
+# ---------------------------------------------------------------- C14
+M('C14-remove-break', 'C14', CONN,
+  "                    handler(exc, exc_info)\n                    caught = True\n                    break\n",
+  "                    handler(exc, exc_info)\n                    caught = True\n", rule='R14.2')
+M('C14-rebind-only-exc', 'C14', CONN,
+  "                    caught = True\n                    break\n                except Exception as new_exc:\n                    exc, exc_info = new_exc, sys.exc_info()",
+  "                    caught = True\n                    break\n                except Exception as new_exc:\n                    exc = new_exc",
+  rule='R14.2')
+M('C14-final-only-if-not-caught', 'C14', CONN, "        if final_handler not in (None, False):",
+  "        if final_handler not in (None, False) and not caught:", rule='R14.3')
+M('C14-record-before-final', 'C14', CONN,
+  "        # Call the user-specified final exception handler.\n        if final_handler not in (None, False):",
+  "        self.exception, self.exc_info = exc, exc_info\n        # Call the user-specified final exception handler.\n        if final_handler not in (None, False):",
+  rule='R14.4', edits=[
+      dict(file=CONN, find="        # Call the user-specified final exception handler.\n        if final_handler not in (None, False):",
+           repl="        self.exception, self.exc_info = exc, exc_info\n        # Call the user-specified final exception handler.\n        if final_handler not in (None, False):"),
+      dict(file=CONN, find="        # Record the exception.\n        self.exception, self.exc_info = exc, exc_info\n", repl="")])
+M('C14-drop-interrupt-mark', 'C14', CONN,
+  "        except Exception as e:\n            self.interrupt = True\n            self.connection._handle_exception(e, sys.exc_info())",
+  "        except Exception as e:\n            self.connection._handle_exception(e, sys.exc_info())", rule='R14.1')
+M('C14-reraise-when-final-false', 'C14', CONN, "        if final_handler is None and not caught:",
+  "        if not final_handler and not caught:", rule='R14.6')
+M('C14-reraise-always-when-none', 'C14', CONN, "        if final_handler is None and not caught:",
+  "        if final_handler is None:", rule='R14.6')
+M('C14-guard-isinstance-only', 'C14', CONN, "            if not exc_types or isinstance(exc, exc_types):",
+  "            if exc_types and isinstance(exc, exc_types):", rule='R14.2')
+M('C14-early-appends', 'C14', CONN, "            self._exception_handlers.insert(0, (handler_func, exc_types))",
+  "            self._exception_handlers.append((handler_func, exc_types))", rule='R14.7')
+M('C14-close-always', 'C14', CONN,
+  "        if (self.new_networking_thread or self.networking_thread).interrupt:\n            self.disconnect(immediate=True)",
+  "        self.disconnect(immediate=True)", rule='R14.5')
+M('C14-close-old-slot', 'C14', CONN,
+  "        if (self.new_networking_thread or self.networking_thread).interrupt:",
+  "        if (self.networking_thread or self.new_networking_thread).interrupt:", rule='R14.5')
+M('C14-run-outside-try', 'C14', CONN,
+  "            self._run()\n            self.connection._handle_exit()\n        except Exception as e:",
+  "            self._run()\n        except Exception as e:", rule='R14.1',
+  edits=[dict(file=CONN, find="            self._run()\n            self.connection._handle_exit()\n        except Exception as e:",
+              repl="            self._run()\n        except Exception as e:"),
+         dict(file=CONN, find="        finally:\n            with self.connection._write_lock:\n                self.connection.networking_thread = None",
+              repl="        finally:\n            with self.connection._write_lock:\n                self.connection.networking_thread = None\n        self.connection._handle_exit()")])
+M('C14-final-exception-lost', 'C14', CONN,
+  "            try:\n                final_handler(exc, exc_info)\n            except Exception as new_exc:\n                exc, exc_info = new_exc, sys.exc_info()",
+  "            try:\n                final_handler(exc, exc_info)\n            except Exception as new_exc:\n                pass", rule='R14.3')
+M('C14-twin-rename-caught', 'C14', CONN, "caught = ", "was_caught = ", count=2, expect='silent',
+  edits=[dict(file=CONN, find="caught = ", repl="was_caught = ", count=2),
+         dict(file=CONN, find="and not caught:", repl="and not was_caught:")])
+M('C14-twin-is-not-form', 'C14', CONN, "        if final_handler not in (None, False):",
+  "        if final_handler is not None and final_handler is not False:", expect='silent')
+M('C14-twin-caught-init', 'C14', CONN,
+  "        for handler, exc_types in self._exception_handlers:\n            if not exc_types or isinstance(exc, exc_types):\n                try:\n                    handler(exc, exc_info)\n                    caught = True\n                    break\n                except Exception as new_exc:\n                    exc, exc_info = new_exc, sys.exc_info()\n        else:\n            caught = False\n",
+  "        caught = False\n        for handler, exc_types in self._exception_handlers:\n            if not exc_types or isinstance(exc, exc_types):\n                try:\n                    handler(exc, exc_info)\n                    caught = True\n                    break\n                except Exception as new_exc:\n                    exc, exc_info = new_exc, sys.exc_info()\n",
+  expect='silent')
